@@ -226,8 +226,8 @@ static void layer_a(const Universe& U, bool big)
 }
 
 // ---------------------------------------------------------------- (b) ProcessNewPackage
-enum PoolState { EMPTY = 0, PARENT, TWIN, CONFLICT, FULL_CHEAP, FULL_RICH, NSTATES };
-static const char* STNAME[] = {"empty", "parent-P2-present", "twin-T-present", "conflict-X-present", "full-cheap-fillers", "full-rich-fillers"};
+enum PoolState { EMPTY = 0, PARENT, TWIN, CONFLICT, FULL_CHEAP, FULL_RICH, FULL_RICH_WIDE, NSTATES };
+static const char* STNAME[] = {"empty", "parent-P2-present", "twin-T-present", "conflict-X-present", "full-cheap-fillers", "full-rich-fillers", "full-rich-fillers-room-for-2"};
 
 struct Group { int state, profile, test_accept; };
 
@@ -269,7 +269,7 @@ struct World {
         BlockResult r = n->ProcessBlock(blk);
         if (!r.valid || n->tip()->GetBlockHash() != blk.GetHash()) return "setup block rejected: " + r.reason;
         L.Add(blk);
-        U = [&] { Universe x = make_universe(s.GetHash(), g.profile, g.state == FULL_RICH ? 400000 : 600); x.setup = U.setup; return x; }();
+        U = [&] { Universe x = make_universe(s.GetHash(), g.profile, (g.state == FULL_RICH || g.state == FULL_RICH_WIDE) ? 400000 : 600); x.setup = U.setup; return x; }();
         // pool state
         auto must = [&](const CTransactionRef& t, const char* what) -> std::string {
             auto res = n->SubmitTx(t);
@@ -280,7 +280,7 @@ struct World {
         if (g.state == PARENT) e = must(U.tx[P2], "P2");
         if (g.state == TWIN) e = must(U.tx[T], "T");
         if (g.state == CONFLICT) e = must(U.tx[X], "X");
-        if (g.state == FULL_CHEAP || g.state == FULL_RICH) for (auto& f : U.fillers) if (e.empty()) e = must(f, "filler");
+        if (g.state >= FULL_CHEAP) for (auto& f : U.fillers) if (e.empty()) e = must(f, "filler");
         return e;
     }
 };
@@ -309,6 +309,13 @@ static std::string run_case(World& w, const Group& g, const std::vector<int>& se
     }();
     const auto after = pool_wtxids(pool);
     { LOCK(cs_main); pool.check(n.cs().CoinsTip(), n.height() + 1); }
+    if (getenv("C29_DEBUG")) {
+        LOCK(pool.cs);
+        auto wc = pool.m_txgraph->GetWorstMainChunk();
+        std::string names;
+        for (auto ref : wc.first) { auto& e = static_cast<const CTxMemPoolEntry&>(*ref); for (int i = 0; i < NREAL; i++) if (w.U.tx[i]->GetHash() == e.GetTx().GetHash()) names += std::string(TXNAME[i]) + " "; }
+        fprintf(stderr, "[worst chunk] size %zu fee %ld size %d : %s\n", wc.first.size(), (long)wc.second.fee, (int)wc.second.size, names.c_str());
+    }
     sig = std::string(STNAME[g.state]) + "|" + u(g.profile) + u(g.test_accept) + "|" + (illformed.empty() ? "ok" : illformed) + "|" + u(res.m_state.IsValid()) + "|";
     for (auto& t : p) {
         auto it = res.m_tx_results.find(t->GetWitnessHash());
@@ -435,7 +442,7 @@ static void group_main(const Group& g, int64_t max_pool_bytes, int maxlen, const
         if (g.state == PARENT) init.txs = {w.U.tx[P2]};
         if (g.state == TWIN) init.txs = {w.U.tx[T]};
         if (g.state == CONFLICT) init.txs = {w.U.tx[X]};
-        if (g.state == FULL_CHEAP || g.state == FULL_RICH) init.txs = w.U.fillers;
+        if (g.state >= FULL_CHEAP) init.txs = w.U.fillers;
         init.wtxids = pool_wtxids(pool);
         LOCK(pool.cs);
         init.rolling = pool.rollingMinimumFeeRate;
@@ -521,7 +528,7 @@ int main(int argc, char** argv)
     setvbuf(stdout, nullptr, _IOLBF, 0);
 
     // ---- calibration child (the root never owns a node: every node lives in its own process)
-    int64_t max_pool = 0;
+    int64_t max_pool = 0, max_pool_wide = 0;
     {
         int pfd[2];
         if (pipe(pfd)) return 2;
@@ -535,7 +542,9 @@ int main(int argc, char** argv)
         if (sscanf(s.c_str(), "C\t%zu\t%zu", &u0, &u1) != 2 || u1 <= u0) { printf("HARNESS-ERROR property=C29 calibration failed: %s\n", s.c_str()); return 2; }
         max_pool = (int64_t)u1 + (int64_t)(u1 - u0) / 2; // room for the fillers plus about one and a half transactions
         if (max_pool < 40 * 1000) { printf("HARNESS-ERROR property=C29 fillers too small for the minimum pool limit (%ld)\n", (long)max_pool); return 2; }
+        max_pool_wide = (int64_t)u1 + (int64_t)(u1 - u0) * 8 / 5; // fillers plus about 2.6 transactions: a 3-4 tx chunk is evicted as a whole
         E.set("full_pool_limit_bytes", (uint64_t)max_pool);
+        E.set("full_pool_wide_limit_bytes", (uint64_t)max_pool_wide);
     }
     // ---- (b) groups
     std::vector<Group> groups;
@@ -615,8 +624,8 @@ int main(int argc, char** argv)
                 int maxlen = big ? 4 : 3;
                 std::vector<int> extra;
                 if (big) extra = {P1, P2, P3, CH, T};
-                else if (!g.test_accept && (g.state == EMPTY || g.state == FULL_RICH)) extra = {P1, P2, P3, CH};
-                group_main(g, (g.state == FULL_CHEAP || g.state == FULL_RICH) ? max_pool : 0, maxlen, extra, pfd[1]);
+                else if (!g.test_accept && (g.state == EMPTY || g.state == FULL_RICH || g.state == FULL_RICH_WIDE)) extra = {P1, P2, P3, CH};
+                group_main(g, g.state == FULL_RICH_WIDE ? max_pool_wide : g.state >= FULL_CHEAP ? max_pool : 0, maxlen, extra, pfd[1]);
             }
             close(pfd[1]);
             running.push_back({pid, pfd[0], next});
